@@ -1420,8 +1420,10 @@ def _unwrap_order(ctx, mir, stats):
                 "detail": "payload is decrypted first, then the checksum (MS-NLMP keystream order), then HMAC, then the comparison" if ok_order else "operation order changed", "where": f.name})
     # both process calls use the decrypt cipher (field 1 of self), hmac uses verify_key (field 3)
     ciph = [resolve_source(ev, i, e[4][0]) for i, e in pc]
-    both_dec = all(re.search(r"\(\*_1\)\.1: nla::rc4::Rc4", c) for c in ciph)
-    obs.append({"id": "unwrap:decrypt-cipher", "ok": both_dec, "functions": [f.name], "detail": "both RC4 passes use the decrypt (peer-to-client) cipher state" if both_dec else "cipher used: %s" % ciph, "where": f.name})
+    both_dec = all(re.search(r"\(\*_1\)\.1: nla::rc4::Rc4", c) and "CALL" not in c for c in ciph)
+    nclone = len(calls_on(ev, r"Rc4 as Clone>::clone$|rc4::Rc4.*clone"))
+    obs.append({"id": "unwrap:decrypt-cipher", "ok": both_dec and nclone == 0, "functions": [f.name], "needs_native": True, "native": None if (both_dec and nclone == 0) else SEAL_NATIVE,
+                "detail": "both RC4 passes advance the context's own decrypt (peer-to-client) cipher state in place" if (both_dec and nclone == 0) else "cipher used: %s (clones: %d): the keystream position may not carry over to the next message" % (ciph, nclone), "where": f.name})
     hk = resolve_source(ev, hc[0][0], hc[0][1][4][0])
     t_key = path_taint(ev[:hc[0][0]], {"(*_1).3", "((*_1).3: std::vec::Vec<u8>)"})
     key_ok = "(*_1).3" in hk or any(_mentions(hc[0][1][4][0], x) for x in t_key)
